@@ -265,16 +265,18 @@ def mergeAt {h : Nat} (p : Inner (Node h)) (idx : Nat) : Inner (Node h) :=
      (p.sizes.set idx (p.sizes.getD idx 0 + p.sizes.getD (idx + 1) 0)).eraseIdx (idx + 1)⟩
   | _, _, _ => p
 
+/-- `canSpare(parent.getChild(j))` -/
+def spareAt (B : Nat) {h : Nat} (p : Inner (Node h)) (j : Nat) : Bool :=
+  match p.kids[j]? with
+  | some c => canSpare B h c
+  | none => false
+
 /-- `fixUnderflow` (remove.go:121-175); returns the parent and `merged`. -/
 def fixUnderflow (B : Nat) {h : Nat} (p : Inner (Node h)) (i : Nat) : Inner (Node h) × Bool :=
-  let leftSpare := decide (i > 0) && (match p.kids[i - 1]? with | some l => canSpare B h l | none => false)
-  if leftSpare then (redistributeRight p (i - 1), false)
-  else
-    let rightSpare := decide (i < p.keys.length) &&
-      (match p.kids[i + 1]? with | some r => canSpare B h r | none => false)
-    if rightSpare then (redistributeLeft p i, false)
-    else if i > 0 then (mergeAt p (i - 1), true)
-    else (mergeAt p i, true)
+  if decide (i > 0) && spareAt B p (i - 1) then (redistributeRight p (i - 1), false)
+  else if decide (i < p.keys.length) && spareAt B p (i + 1) then (redistributeLeft p i, false)
+  else if i > 0 then (mergeAt p (i - 1), true)
+  else (mergeAt p i, true)
 
 /-- the part of `innerRemove` after the recursive call (remove.go:91-119):
 `i` = `childIdx`, `r` = the result of removing from the cloned child (`r.found`). -/
